@@ -295,7 +295,7 @@ def build_for(case):
 
     def build(arena):
         arena.start = case.get('start', 0)
-        channel = Channel()
+        channel = inject.made(case, Channel)
         wrap = Twin if case.get('twins') else odd if case.get('odd') else str
         if case.get('nones'):
             # every other message is None (a valid payload: it must not end an iteration)
@@ -413,7 +413,7 @@ def build_for(case):
         background = []
         if case['index'] % 3 == 0:
             # another, independent channel is busy at the same time: channels share nothing
-            other = Channel()
+            other = inject.made(case, Channel)
 
             async def elsewhere():
                 async def listener():
